@@ -1,5 +1,6 @@
 import SqlObjVerif.Lemmas.Hub
 import SqlObjVerif.Lemmas.HubX
+import SqlObjVerif.Lemmas.TxXCommit
 /-!
 # C08 — `doInTransaction` is all-or-nothing, re-raises the same exception, always restores the hub
 
@@ -237,6 +238,31 @@ theorem C08_translated_doInTransaction_atomic_restores (w : World) (tid : Nat) (
   · exact doInTransactionX_eq w tid b (fun l c' h => by rw [hres] at h; cases h)
   · exact (C08_doInTransaction_atomic_restores w tid b lvl c hres).2.1
   · exact (C08_doInTransaction_atomic_restores w tid b lvl c hres).1
+
+/-! The interface `t.commit(close=True)` / `t.rollback()` assumed above is, on the side of the low-level connection,
+what the TRANSLATED `Transaction.commit` / `rollback` / `_makeObsolete` do (`Model/TxX.lean`, proofs in
+`Lemmas/TxX*.lean`, stated against `Model/Tx.lean` in `Props/C07.lean`): the transaction becomes obsolete and its
+low-level connection goes back to the pool (`Low.release`: autocommit on again iff the connection's `autoCommit` is
+truthy, one connection fewer checked out) — in BOTH cases of `autoCommit`. -/
+
+open SqlObjVerif.PyTx in
+theorem C08_translated_commit_close_releases (A : Tx.AllIDs) (s : Tx.St) (hA : Tx.AllIDsSpec A s.dc s.t) (lo : Tx.Low)
+    (wf : Tx.ConnWF s.p) (h : s.obsolete = false) :
+    Tx.commitX A (Tx.img s lo) true = .ret (Tx.img (Tx.opCommit s true).1 lo.release) .none
+    ∧ (Tx.opCommit s true).1.obsolete = true ∧ (Tx.opCommit s true).1.db = s.view .T
+    ∧ lo.release.inUse = lo.inUse - 1 ∧ lo.release.lowAuto = (if lo.ac then true else lo.lowAuto) := by
+  refine ⟨?_, by simp [Tx.opCommit, h], by simp [Tx.opCommit, h], rfl, rfl⟩
+  have := Tx.commitX_eq A s hA lo true wf
+  simpa [h] using this
+
+open SqlObjVerif.PyTx in
+theorem C08_translated_rollback_releases (A : Tx.AllIDs) (s : Tx.St) (hA : Tx.AllIDsSpec A s.dc s.t) (lo : Tx.Low)
+    (wf : Tx.ConnWF s.t) (h : s.obsolete = false) :
+    Tx.rollbackX A (Tx.img s lo) = .ret (Tx.img (Tx.opRollback s).1 lo.release) .none
+    ∧ (Tx.opRollback s).1.obsolete = true ∧ (Tx.opRollback s).1.db = s.db := by
+  refine ⟨?_, by simp [Tx.opRollback, h], by simp [Tx.opRollback, h]⟩
+  have := Tx.rollbackX_eq A s hA lo wf
+  simpa [h] using this
 
 /-- non-vacuity: the hypothesis holds for the threads of `w0` -/
 example : ∀ lvl c, w0.hub.resolve 1 ≠ some (lvl, .tx c) := by
